@@ -13,10 +13,9 @@ PROP = "C01R"
 AREAS = ["kmer", "segment", "registry", "groupstore", "pipeline"]
 THEOREMS = ["registry_source_pinned", "registry_injective", "registry_dense", "map_monotone", "add_known_never_drops",
             "process_new_allocates_nothing", "missing_fallback_unreachable", "buffer_per_group", "buffers_persist",
-            "stored_has_buffer", "case2_key_rule", "same_key_same_group", "case2_stored_is_classified",
-            "orphans_round_robin", "raw_groups_only_orphans", "raw_key_copied", "orphans_only_raw_refuted",
-            "raw_only_orphans_refuted", "buffer_receives_own_group_refuted", "group_of_is_a_function",
-            "ops_carry_placements", "parts_agree_with_pipeline"]
+            "stored_label", "case2_key_rule", "same_key_same_group", "orphans_round_robin", "raw_groups_only_orphans",
+            "raw_key_copied", "orphans_only_raw_refuted", "raw_only_orphans_refuted", "raw_key_hit_witness",
+            "ops_carry_placements", "group_of_is_a_function", "stored_ids_distinct", "parts_agree_with_pipeline"]
 PROFILES = ["dev"]
 RULE = ("case `reg <dir> <params>` = a sample set (FASTA files) compressed by the real StreamingQueueCompressor exactly as "
         "ragc-cli drives it, hook log on; the harness prints k, the splitter set, the contigs of every sync round (ROUND "
@@ -563,21 +562,26 @@ def shape_divergent(rng):
 
 
 def shape_palindrome(rng):
-    """front == back: a later sample contains a splitter window and, one segment further, its reverse complement"""
+    """front == back: a later sample contains a splitter window of the reference and, one stretch further, its reverse
+    complement (the splitter set comes from a pre-pass through the harness, case `spl`)"""
     k = rng.choice([9, 11, 15]); seg = rng.choice([50, 100])
     ref = G.rand_seq(rng, rng.choice([600, 1200]))
-    spl_guess = [e for e in range(k + seg, len(ref) - 50, seg)]
+    p = f"{k},{seg},15,50,{rng.choice([1, 4])},{1 << 31},0"
+    d = os.path.join(CASEROOT, "_spl")
+    shutil.rmtree(d, ignore_errors=True)
+    G.write_case(d, [("S000", [("c0", ref)]), ("S001", [("x", "A")])], mode="multi")
+    line = vlib.run_impl(PROP, [f"spl {d} {p}"], "dev")[0]          # noqa: F821 (vlib is injected by bin/check)
+    spl = set() if not line.startswith("OK ") or line == "OK -" else {int(x, 16) for x in line[3:].split(",")}
+    ends = [e for (_, e, _, b, _, _) in segment([G.CODE[c] for c in ref], k, spl) if b != MISS]
     cs = []
-    for j in range(rng.choice([2, 4, 8])):
-        e = rng.choice(range(k + 20, len(ref) - 20))
+    for j, e in enumerate(ends[: rng.choice([2, 4, 8])]):
         w = ref[e - k:e]
-        cs.append((f"p{j}", ref[:e] + G.rand_seq(rng, rng.choice([5, 30, 80])) + G.revcomp(w) + G.rand_seq(rng, rng.choice([0, 10, 60]))))
-    # every window of ref is tried: also those that are splitters (the harness decides); plus a dense variant
-    dense = ref[:300]
-    for e in range(k, 300, 7):
-        dense += G.revcomp(ref[e - k:e])
-    return [("S000", [("c0", ref)]), ("S001", cs + [("dense", dense)]), ("S002", [("c0", G.mutate(rng, ref, 0.01) or "A")])], \
-        f"{k},{seg},15,50,{rng.choice([1, 4])},{1 << 31},0", "multi"
+        filler = nopoly(G.rand_seq(rng, rng.choice([5, 30, 80])))
+        # S w filler rc(w) T : the raw segment from w to rc(w) has front == back
+        cs.append((f"p{j}", ref[max(0, e - 60):e] + filler + G.revcomp(w) + G.rand_seq(rng, rng.choice([0, 10, 60]))))
+        if rng.random() < 0.5:    # twice the same palindromic pair: same key (v, v), second one KNOWN
+            cs.append((f"q{j}", G.rand_seq(rng, 20) + w + nopoly(G.rand_seq(rng, 25)) + G.revcomp(w) + G.rand_seq(rng, 15)))
+    return [("S000", [("c0", ref)]), ("S001", cs or [("c0", ref)]), ("S002", [("c0", G.mutate(rng, ref, 0.01) or "A")] + cs[:2])], p, "multi"
 
 
 def shape_polyA(rng, which=None):
@@ -600,8 +604,13 @@ def shape_polyA(rng, which=None):
 
 
 def shape_single(rng):
-    return G.gen_set(rng, nsamples=rng.choice([2, 3, 5]), ncontigs=rng.choice([2, 3, 30]), clen=rng.choice([200, 500])), \
-        params(rng, s=rng.choice([50, 100])), "single"
+    """single-file (PanSN) mode: a sync round every 50 contigs, globally"""
+    s = G.gen_set(rng, nsamples=rng.choice([2, 3, 5]), ncontigs=rng.choice([2, 3, 5]), clen=rng.choice([200, 500]))
+    extra = rng.choice([0, 60, 130])
+    if extra:
+        i = rng.randrange(len(s))
+        s[i] = (s[i][0], s[i][1] + [(f"z{j}", G.rand_seq(rng, rng.choice([3, 7, 40, 120]))) for j in range(extra)])
+    return s, params(rng, k=rng.choice([9, 11, 15]), s=rng.choice([50, 100])), "single"
 
 
 def shape_fallback(rng):
@@ -620,7 +629,7 @@ def gen_cases(rng, tier, label=None):
     for old in os.listdir(CASEROOT):
         if old.startswith(label + "-") and not old.startswith(tag):
             shutil.rmtree(os.path.join(CASEROOT, old), ignore_errors=True)
-    reps = {"quick": [8, 5, 6, 8, 4, 6, 4, 3], "thorough": [150, 60, 100, 150, 60, 60, 60, 40]}[tier]
+    reps = {"quick": [8, 5, 6, 8, 4, 6, 4, 3], "thorough": [500, 200, 300, 500, 200, 200, 200, 150]}[tier]
     cs, i = [], 0
     for (name, f), n in zip(SHAPES, reps):
         for j in range(n):
